@@ -108,6 +108,20 @@ def cases(rng, tier, shard, nshards):
     x = np.arange(1, n + 1, dtype=float)
     yield {'points': np.ascontiguousarray(np.column_stack((x, 1000.0 / (1.0 + x)))), 'family': 'hyperbola-long',
            'layout': 'C', 'detector': 'curvature', 't1': 1e-4, 't2': 3}
+    # long, almost straight curves whose whole deviation from the endpoint line sits in a few consecutive samples: any
+    # estimate of the straightness gate from a subsample of a long segment misses it; t1 just below the true SMAPE
+    for _ in range(3 if tier == 'quick' else 6):
+        n = int(rng.integers(2100, 5200))
+        x = np.arange(1, n + 1, dtype=float) * float(pick(rng, [1.0, 1.0, 4096.0]))
+        y = 1000.0 - 800.0 * (x - x[0]) / (x[-1] - x[0])
+        for _k in range(int(rng.integers(1, 3))):
+            c, w = int(rng.integers(n // 10, n - n // 10)), int(rng.integers(2, 8))
+            y[c:c + w] *= float(rng.uniform(0.1, 0.5))
+        pts = np.ascontiguousarray(np.column_stack((x, y)))
+        with install.quiet():
+            v = float(mods['linear_fit'].smape_points(pts, mods['linear_fit'].linear_fit_points(pts)))
+        yield {'points': pts, 'family': 'long-line-with-dropout', 'layout': 'C', 'detector': pick(rng, DETECTORS),
+               't1': v * float(rng.uniform(0.5, 0.9)), 't2': 3 + int(rng.integers(0, 3))}
     for i in range(shard_count(total, shard, nshards)):
         r = rng.random()
         if tier == 'thorough' and r < 0.004:
